@@ -397,7 +397,11 @@ class Service(object):
         last_txid = None
         cache_gap = False
         history_cached = db_addr is not None and db_addr.last_txid is not None
-        if self.min_providers <= 1 and not (after_txid and not history_cached) and caching_enabled:
+        # Transactions found with after_txid are only cached if they continue the cached history of this address
+        # without a gap: after the last cached transaction
+        cache_continues = not after_txid or (history_cached and (
+            bool(txs_cache) or db_addr.last_txid == bytes.fromhex(after_txid)))
+        if self.min_providers <= 1 and cache_continues and caching_enabled:
             last_block = self.blockcount()
             last_txid = qry_after_txid
             self.complete = True
